@@ -99,9 +99,30 @@ def setter_terms(chk, cls, setter):
     def inline(f, ct):
         return f.cls is cls  # own helper methods; module-level pure helpers stay as call terms
 
-    it = Interp(prog, setter, inline=inline)
+    # every READ of the target's supply is its own observation (a pool may report a different supply each time):
+    # ("obs", <supply term>, n); a local bound to one read shares that observation wherever it is used
+    def attr_hook(it_, path, base, attr, node):
+        if attr == "supply" and base[0] == "attr" and base[2] == "target":
+            path.counter += 1
+            return ("obs", ("attr", base, attr), path.counter)
+        return None
+
+    it = Interp(prog, setter, inline=inline, attr_hook=attr_hook)
     outs = it.run()
     return it, outs
+
+
+def deobs(t):
+    """the term with every observation replaced by what was observed"""
+    if not isinstance(t, tuple):
+        return t
+    if t and t[0] == "obs" and len(t) == 3:
+        return deobs(t[1])
+    return tuple(deobs(x) for x in t)
+
+
+def observations(t):
+    return {x[2] for x in subterms(t) if isinstance(x, tuple) and x and x[0] == "obs" and len(x) == 3}
 
 
 def is_call_to(t, qual):
@@ -183,6 +204,20 @@ def sanitiser_order(chk):
     def check_value(t, what, floored_required, label):
         """t must be clamp(min, clamp(supply-backlog, X, supply+surplus), max) with X = value or floor(value, g)"""
         rule = "O6.2"
+        # both edges of the supply window come from ONE observation of the target's supply
+        for c_ in subterms(t):
+            pc = parse_clamp(c_) if isinstance(c_, tuple) else None
+            if pc is not None and observations(pc[0]) and observations(pc[2]) and observations(pc[0]) != observations(pc[2]):
+                chk.bad(
+                    rule,
+                    name,
+                    "%s: the lower and the upper edge of the supply window (%s .. %s) come from two different reads of the target's supply: with a supply that changes between the reads the value can lie outside every window the pool ever reported" % (what, show(deobs(strip_sites(pc[0]))), show(deobs(strip_sites(pc[2])))),
+                    node=setter.node,
+                    stmt="%s: supply-read-twice" % what,
+                    input=label,
+                )
+                return False
+        t = deobs(t)
         outer = parse_clamp(t)
         if outer is None:
             # something wraps / replaces the outer clamp
